@@ -63,9 +63,23 @@ theorem reviver_order (f : Reviver) (fuel : Nat) (name : Str) (v : RV) :
     (`gvOf` is where the remaining differences live: keys go through a Go map, strings through
     `goStr`, numbers through `walkNum`; they are the str_* regions.) -/
 theorem stringify_rules (M : MCtx) (S : SCtx) (hr : M.repl = S.repl) (hp : M.plist = S.plist) (hc : M.cv = S.cv)
-    (fuel depth : Nat) (key : Str) (v : SV) :
+    (hj : M.pj = S.pj) (fuel depth : Nat) (key : Str) (v : SV) :
     walk M fuel depth key v = WR.map gvOf (serial S fuel depth key v) :=
-  walk_eq M S hr hp hc fuel depth key v
+  walk_eq M S hr hp hc hj fuel depth key v
+
+/-- `tojson_objects_only`: whatever toJSON methods or getters sit on String.prototype,
+    Number.prototype, Boolean.prototype or Object.prototype (`pj`), a PRIMITIVE value — undefined,
+    null, boolean, number, string — is never asked for one (ES5 15.12.3 Str step 2: "If Type(value) is
+    Object"); for an object an own toJSON comes before an inherited one. -/
+theorem tojson_objects_only (pj : SV → Str → Option SV) (key : Str) :
+    viaToJSON pj key .undef = .undef ∧ viaToJSON pj key .null = .null ∧
+    (∀ b, viaToJSON pj key (.bool b) = .bool b) ∧ (∀ x, viaToJSON pj key (.num x) = .num x) ∧
+    (∀ s, viaToJSON pj key (.str s) = .str s) ∧ (∀ r, viaToJSON pj key (.tojson r) = r) := by
+  simp [viaToJSON, isObjectKind]
+
+/-- the lookup agrees with ES5 on every value and every prototype pollution -/
+theorem tojson_step_eq (pj : SV → Str → Option SV) (key : Str) (v : SV) : viaToJSON pj key v = step2 pj key v :=
+  viaToJSON_eq pj key v
 
 /-- `wrapper_unboxing`: a Number object is serialised as ToNumber of it and a String object as ToString
     of it — [[DefaultValue]] calls `valueOf` / `toString` in the order of the hint, an own method
@@ -88,19 +102,22 @@ example (cv : Conv) : unbox cv (.wrapStr [97] (.ret (.str [98])) .notCallable) =
 
 /-- `cycle_detect`: a reference to the k-th enclosing container throws exactly when it is enclosed
     (k < depth), in the model and in the spec alike, whatever the replacer does not change -/
-theorem cycle_detect (M : MCtx) (hn : M.repl = none) (fuel depth k : Nat) (key : Str) (h : k < depth) :
+theorem cycle_detect (M : MCtx) (hn : M.repl = none) (fuel depth k : Nat) (key : Str) (h : k < depth)
+    (hj : M.pj (.back k) key = none) :
     walk M (fuel + 1) depth key (.back k) = .throw := by
-  simp [walk, hn, viaToJSON, viaGet, unbox, h]
+  simp [walk, hn, viaToJSON, isObjectKind, hj, viaGet, unbox, h]
 
 /-- undefined / function: absent at top level and in objects … -/
-theorem omit_undefined_function (M : MCtx) (hn : M.repl = none) (fuel depth : Nat) (key : Str) :
+theorem omit_undefined_function (M : MCtx) (hn : M.repl = none) (fuel depth : Nat) (key : Str)
+    (hj : M.pj .func key = none) :
     walk M (fuel + 1) depth key .undef = .absent ∧ walk M (fuel + 1) depth key .func = .absent := by
-  simp [walk, hn, viaToJSON, viaGet, unbox]
+  simp [walk, hn, viaToJSON, isObjectKind, hj, viaGet, unbox]
 
 /-- … and `null` inside arrays -/
-theorem array_undefined_is_null (M : MCtx) (hn : M.repl = none) (fuel depth i : Nat) :
+theorem array_undefined_is_null (M : MCtx) (hn : M.repl = none) (fuel depth i : Nat)
+    (hj : ∀ k, M.pj .func k = none) :
     walkArr M (fuel + 3) depth i (.cons .undef (.cons .func .nil)) = .val (.cons .nil (.cons .nil .nil)) := by
-  simp [walkArr, walk, hn, viaToJSON, viaGet, unbox]
+  simp [walkArr, walk, hn, viaToJSON, isObjectKind, hj, viaGet, unbox]
 
 /-- the gap never exceeds ten characters (ES5 15.12.3 steps 6-7), for every `space` argument -/
 theorem spec_gap_le_10 (sp : Space) : (Spec.gapOf sp).length ≤ 10 := by
@@ -197,14 +214,14 @@ example : C11.jsonParse [34, 92, 117, 100, 56, 48, 48, 34] ≠ Spec.jsonParse [3
 def idNum : Conv := { numStr := fun _ => [48], strNum := fun _ => .nan }
 
 /-- str_key_order: {b:null,a:null} -/
-example : C11.jsonStringify OttoVerif.C06.Spec.exactLib idNum 9 (.obj (.cons [98] .null (.cons [97] .null .nil))) .none .absent
-    ≠ Spec.jsonStringify idNum 9 (.obj (.cons [98] .null (.cons [97] .null .nil))) .none .absent := by decide +kernel
+example : C11.jsonStringify OttoVerif.C06.Spec.exactLib idNum noProtoToJSON 9 (.obj (.cons [98] .null (.cons [97] .null .nil))) .none .absent
+    ≠ Spec.jsonStringify idNum noProtoToJSON 9 (.obj (.cons [98] .null (.cons [97] .null .nil))) .none .absent := by decide +kernel
 /-- str_u2028_escape: the one-character string U+2028 -/
-example : C11.jsonStringify OttoVerif.C06.Spec.exactLib idNum 9 (.str [0x2028]) .none .absent
-    ≠ Spec.jsonStringify idNum 9 (.str [0x2028]) .none .absent := by decide +kernel
+example : C11.jsonStringify OttoVerif.C06.Spec.exactLib idNum noProtoToJSON 9 (.str [0x2028]) .none .absent
+    ≠ Spec.jsonStringify idNum noProtoToJSON 9 (.str [0x2028]) .none .absent := by decide +kernel
 /-- str_lone_surrogate: the one-character string 0xD800 -/
-example : C11.jsonStringify OttoVerif.C06.Spec.exactLib idNum 9 (.str [0xD800]) .none .absent
-    ≠ Spec.jsonStringify idNum 9 (.str [0xD800]) .none .absent := by decide +kernel
+example : C11.jsonStringify OttoVerif.C06.Spec.exactLib idNum noProtoToJSON 9 (.str [0xD800]) .none .absent
+    ≠ Spec.jsonStringify idNum noProtoToJSON 9 (.str [0xD800]) .none .absent := by decide +kernel
 /-- str_lone_surrogate, in the gap: nine spaces and a surrogate pair, cut after its first half -/
 example : C11.gapOf (.str [32, 32, 32, 32, 32, 32, 32, 32, 32, 0xD83D, 0xDE00]) ≠ Spec.gapOf (.str [32, 32, 32, 32, 32, 32, 32, 32, 32, 0xD83D, 0xDE00]) := by decide +kernel
 
